@@ -67,6 +67,10 @@ func (s *c16) Start(r *kit.Rng, cfg map[string]int64) {
 		return
 	}
 	s.maxSteps = r.Range(3, 40*kit.Depth)
+	if kit.Depth > 1 && r.Chance(1, 1000) {
+		s.maxSteps = r.Range(4000, 6000) // one wrapper used for a very long time
+		s.st.Probe("marathon-run")
+	}
 	cfg["max_steps"] = int64(s.maxSteps)
 }
 
